@@ -12,7 +12,12 @@ grep '^fixed:' known-findings.txt | while read -r _ prop commit rest; do
   rm -rf $W
   git -C /repo worktree add -q --detach $W HEAD || continue
   # revert exactly that fix on top of the current tree (keeps hooks and later fixes)
-  if ! git -C $W revert --no-commit $commit >/dev/null 2>&1; then
+  # a fix that changed a function signature cannot be reverted textually without breaking the
+  # harness build (no verdict): findings/*/revert_<commit>.diff then takes back the behaviour only
+  R=$(ls findings/*/revert_$commit.diff 2>/dev/null | head -1)
+  if [ -n "$R" ]; then
+    git -C $W apply $R || { echo "FIXED $p $commit: $R does not apply"; git -C /repo worktree remove --force $W; continue; }
+  elif ! git -C $W revert --no-commit $commit >/dev/null 2>&1; then
     git -C $W revert --abort >/dev/null 2>&1; git -C $W checkout -q -- . ; echo "FIXED $p $commit: cannot be reverted cleanly on the current tree (later fixes touch the same lines) - skipped"
     git -C /repo worktree remove --force $W; continue
   fi
